@@ -116,12 +116,12 @@ def cases(tier, seed):
         ws = list(U.words(INT_ABC, n)) if n <= 3 else list(U.words(INT_AB, n)) + [_mapped(list(range(n)))]
         for w in ws:
             for m in itertools.product([False, True], repeat=n):
-                for form in ("mask", "rlemask"):
+                for form in ("mask", "rlemask", "rlemask-cmp"):
                     yield {"k": form, "dtype": "int64", "a": w, "m": list(m)}
     for d in b["dtypes"]:
         for w in _dtype_arrays(d, tier, lens=(1, 3, 4)):
             for m in itertools.product([False, True], repeat=len(w)):
-                for form in ("mask", "rlemask"):
+                for form in ("mask", "rlemask", "rlemask-cmp"):
                     yield {"k": form, "dtype": d, "a": w, "m": list(m)}
     # ragged windows
     for n in list(range(1, b["ragged_full_max_len"] + 1)) + list(b["ragged_selected_lens"]):
@@ -191,7 +191,7 @@ def nontrivial(case):
         return True
     if k in ("list", "array"):
         return len(case["idx"]) > 0
-    if k in ("mask", "rlemask"):
+    if k in ("mask", "rlemask", "rlemask-cmp"):
         return any(case["m"]) and not all(case["m"])
     return True
 
@@ -207,7 +207,7 @@ def _index_tag(case):
         if len(case["idx"]) == 0:
             return k + ":empty"
         return k
-    if k in ("mask", "rlemask"):
+    if k in ("mask", "rlemask", "rlemask-cmp"):
         if not any(case["m"]):
             return k + ":all-false"
         return k
@@ -230,6 +230,8 @@ def _describe(case):
         return f"rla({a})[np.array({case['m']})]"
     if k == "rlemask":
         return f"rla({a})[RunLengthArray.from_array(np.array({case['m']}))]"
+    if k == "rlemask-cmp":
+        return f"rla({a})[RunLengthArray.from_array(y) > 0] with y > 0 == {case['m']} (unjoined runs)"
     return f"rla({a})[np.array({case['starts']}):np.array({case['stops']})]"
 
 
@@ -261,6 +263,12 @@ def check(case):
         elif k == "rlemask":
             m = np.array(case["m"], dtype=bool)
             idx = RunLengthArray.from_array(m)
+            exp = a[m]
+        elif k == "rlemask-cmp":
+            # a run-length mask as a comparison produces it: one run per position, neighbouring runs may hold the same truth value
+            m = np.array(case["m"], dtype=bool)
+            y = np.array([(i + 1) if b else -(i + 1) for i, b in enumerate(case["m"])], dtype=np.int64)
+            idx = RunLengthArray.from_array(y) > 0
             exp = a[m]
         else:
             starts, stops = np.array(case["starts"], dtype=np.int64), np.array(case["stops"], dtype=np.int64)
